@@ -60,3 +60,15 @@ package portset
 //@   loop 0 invariant 0 <= i && i <= j && j <= len(s.ranges)
 //@   loop 0 invariant forall k int :: 0 <= k && k < i ==> s.ranges[k].To < port
 //@   loop 0 invariant forall k int :: j <= k && k < len(s.ranges) ==> port < s.ranges[k].From
+
+// Used by route construction through (empty) contracts only.
+//@ func (*PortSet).Parse
+//@   noinline
+//@ func (*PortSet).Count
+//@   noinline
+//@ func (*PortSet).First
+//@   noinline
+//@ func (*PortSet).RangeCount
+//@   noinline
+//@ func (*PortSet).RangeSet
+//@   noinline
